@@ -346,6 +346,35 @@ def main():
             elif r['status'] == 'unknown':
                 undecided.append((r['name'], f"solver unknown: {r['reason']}"))
 
+    # frame scans: syntactic effect analysis of the current source that establishes a frame assumed by a
+    # modular contract ("only these functions write that field").  A failing scan leaves the frame
+    # unestablished: undecided, not a violation.
+    for scan in getattr(mod, 'FRAME_SCANS', []):
+        t_scan = time.time()
+        try:
+            results = scan(os.path.join(args.repo, 'src'))
+        except Exception:
+            faults.append(f'frame scan {scan.__name__} crashed: {traceback.format_exc()[-800:]}')
+            continue
+        ms = (time.time() - t_scan) * 1000
+        for res in results:
+            key = f"frame-scan/{scan.__name__}:{res['name']}"
+            total_queries += 1
+            ob = obligations.setdefault(key, {'queries': 0, 'unsat': 0, 'sat': 0, 'unknown': 0, 'ms': 0.0,
+                                              'kind': 'frame-scan', 'function': res.get('function', scan.__name__),
+                                              'backends': {}})
+            ob['queries'] += 1
+            ob['backends']['ast-scan'] = ob['backends'].get('ast-scan', 0) + 1
+            ob['ms'] += ms / max(1, len(results))
+            b = backends.setdefault('ast-scan', {'queries': 0, 'ms': 0.0})
+            b['queries'] += 1
+            b['ms'] += ms / max(1, len(results))
+            if res['ok']:
+                ob['unsat'] += 1
+            else:
+                ob['unknown'] += 1
+                undecided.append((key, 'frame not established by the source: ' + res.get('detail', '')))
+
     # vacuity: every clause must have been reached
     for rep in reports:
         if 'crash' in rep or rep['unsupported']:
